@@ -15,7 +15,7 @@ PROPS = {
         "pkgs": ["gbn"],
         "level": "exploration",
         "quick_budget": 50, "thorough_budget": 1500,
-        "rule": "Seeded simulated runs of a real client+server GoBackNConn pair (handshake included) with concurrent traffic in both directions; per run the tape draws N (1..254, biased to 1,2,3,20,64,253,254), chunking, static/adaptive timeouts, keepalive, per-direction drop/dup/delay rates, message counts and sizes, and every scheduling decision. Applications vary per run: readers that lag behind by more than a window of packets, readers with a receive timeout (1 ms..1 s) that they retry after, writers with idle gaps." + SIG_RULE,
+        "rule": "Seeded simulated runs of a real client+server GoBackNConn pair (handshake included) with concurrent traffic in both directions; per run the tape draws N (1..254, biased to 1,2,3,20,64,253,254), chunking, static/adaptive timeouts, keepalive, per-direction drop/dup/delay rates, message counts and sizes, and every scheduling decision. Applications vary per run: readers that lag behind by more than a window of packets, readers with a receive timeout (1 ms..1 s) that they retry after, writers with idle gaps. In a quarter of the runs the writers send every message from one scratch buffer that they overwrite as soon as Send has returned." + SIG_RULE,
         "assumptions": ["transport keeps per-direction order (property precondition)", "harness oracle regenerates each expected message from (direction, index, size)"],
         "components": GBN_COMPONENTS,
         "expected_probes": ["c01.recv-timeout-retried", "c01.complete", "c01.seq-wrapped"],
@@ -67,10 +67,10 @@ PROPS["C13"] = {
     "pkgs": ["gbn", "mailbox"],
     "level": "exploration",
     "quick_budget": 120, "thorough_budget": 1800,
-    "rule": "dead-peer: after a clean handshake and a little traffic both directions go silent forever at a tape-chosen millisecond (0..20 s), with 0..N+3 messages queued per side at that instant (idle, sending, window full, window full with a blocked Send), ping/pong pairs incl. 5s/7s/3s and pong>ping, static and adaptive resend timeouts; each endpoint must be closed, with all blocked and new calls failing, by t_silence + 3x(ping+pong) + 20x resend timeout + 5 s. idle-healthy: fault-free link with one-way latency up to pong/2, idle for up to 12 virtual hours (bounded to 2500 ping intervals) with occasional traffic, sometimes with transport write calls that return only after the packet (and its acknowledgement) travelled; never closed. mb-dead-peer: the full mailbox stack over the stub relay; on the first, second or third connection of a session the relay starts swallowing every message; both applications' calls must fail within 90 s. idle-resonant: idle-healthy on windows of 1-3 packets (the pings themselves fill the window), equal ping intervals, one-way latency a multiple of ping/8 and a pong timeout between the round trip and ping + round trip, so that ping ticks, pong expiries and packet arrivals share virtual instants and the tape orders them." + SIG_RULE,
+    "rule": "dead-peer: after a clean handshake and a little traffic both directions go silent forever at a tape-chosen millisecond (0..20 s), with 0..N+3 messages queued per side at that instant (idle, sending, window full, window full with a blocked Send), ping/pong pairs incl. 5s/7s/3s and pong>ping, static and adaptive resend timeouts; each endpoint must be closed, with all blocked and new calls failing, by t_silence + 3x(ping+pong) + 20x resend timeout + 5 s. idle-healthy: fault-free link with one-way latency up to pong/2, idle for up to 12 virtual hours (bounded to 2500 ping intervals) with occasional traffic, sometimes with transport write calls that return only after the packet (and its acknowledgement) travelled; never closed. mb-dead-peer: the full mailbox stack over the stub relay; on the first, second or third connection of a session the relay starts swallowing every message; both applications' calls must fail within 90 s. idle-resonant: idle-healthy on windows of 1-3 packets (the pings themselves fill the window), equal ping intervals, one-way latency a multiple of ping/8 and a pong timeout between the round trip and ping + round trip, so that ping ticks, pong expiries and packet arrivals share virtual instants and the tape orders them. idle-lost-ack: a fast link that loses an isolated ACK now and then (the retransmitted ping is answered with a NACK well inside the pong timeout). full-window-lost-acks: the acknowledgements of one full window are lost while the resend timeout is 1-3 x (ping + pong) and the peer's own pings are rare: the keepalive has to probe the live peer, not drop it. dead-peer: in half of the runs the connection has been through, and recovered from, a blackout on a full window before the silence." + SIG_RULE,
     "assumptions": ["closure observed white-box (quit channel) plus blocked/new call results", "bound multipliers are generous; the defect class is unbounded non-detection"],
     "components": GBN_COMPONENTS,
-    "expected_probes": ["c13.client-idle", "c13.client-sending", "c13.client-window-full", "c13.client-window-full+blocked-send"],
+    "expected_probes": ["c13.burst-ack-lost", "c13.ack-lost", "c13.client-idle", "c13.client-sending", "c13.client-window-full", "c13.client-window-full+blocked-send"],
     "level_text": EXPL_TEXT,
     "level_note": LEVEL_NOTE_GBN,
 }
@@ -79,7 +79,7 @@ PROPS["C12"] = {
     "pkgs": ["gbn", "mailbox"],
     "level": "exploration",
     "quick_budget": 60, "thorough_budget": 1800,
-    "rule": "Per run the tape picks the phase in which Close lands (constructor context cancelled mid-handshake, idle, mid-burst, full window with a blocked Send, inside a resend / sync wait, only Recv blocked) and the virtual instant inside it, who closes (client, server, both at the same instant), 1-3 concurrent callers per endpoint plus a repeated Close, the transport state at that moment (healthy, total blackout, send callbacks stalled until their context is cancelled), N, timeouts and keepalive. Oracles: Close returns within FIN timeout + 2 s; blocked and later local calls fail; the peer is closed with all its calls failed within FIN timeout + 2 x latency + 2 s on a healthy transport (keepalive bound on a dead one); afterwards no task spawned by the connection code is alive (task registry with spawn sites) and no ticker created by it still ticks (drain, advance one virtual hour, look). mb-close: the same for the mailbox connections in the full stack over the stub relay (Close by client / server / both, 1-2 concurrent callers, idle or mid-transfer; bounded return; both applications released; after listener and dialer shutdown nothing of gbn/mailbox is left). close-anytime also has an unread-backlog phase (more than a window of packets received that the application never reads) and, with the stalled transport, a send callback that serialises its callers; mb-close calls Close with the relay down or restarted in one run of five." + SIG_RULE,
+    "rule": "Per run the tape picks the phase in which Close lands (constructor context cancelled mid-handshake, idle, mid-burst, full window with a blocked Send, inside a resend / sync wait, only Recv blocked) and the virtual instant inside it, who closes (client, server, both at the same instant), 1-3 concurrent callers per endpoint plus a repeated Close, the transport state at that moment (healthy, total blackout, send callbacks stalled until their context is cancelled), N, timeouts and keepalive. Oracles: Close returns within FIN timeout + 2 s; blocked and later local calls fail; the peer is closed with all its calls failed within FIN timeout + 2 x latency + 2 s on a healthy transport (keepalive bound on a dead one); afterwards no task spawned by the connection code is alive (task registry with spawn sites) and no ticker created by it still ticks (drain, advance one virtual hour, look). mb-close: the same for the mailbox connections in the full stack over the stub relay (Close by client / server / both, 1-2 concurrent callers, idle or mid-transfer; bounded return; both applications released; after listener and dialer shutdown nothing of gbn/mailbox is left). close-anytime also has an unread-backlog phase (more than a window of packets received that the application never reads) and, with the stalled transport, a send callback that serialises its callers; mb-close calls Close with the relay down or restarted in one run of five. fin-after-resent-handshake: the handshake needs one retransmission (first SYN or first SYNACK lost), then the peer closes without having sent anything: the FIN is the first packet of the data phase and must end the blocked Recv." + SIG_RULE,
     "assumptions": ["leak oracle relies on the task registry of the simulator: every goroutine of the code under test is a registered task named by its spawn site"],
     "components": GBN_COMPONENTS,
     "expected_probes": ["c12.mb-closed-with-relay-down", "c12.peer-notified"],
@@ -91,10 +91,10 @@ PROPS["C14"] = {
     "pkgs": ["gbn"],
     "level": "exploration",
     "quick_budget": 60, "thorough_budget": 1500,
-    "rule": "sizes-exhaustive: for each maxChunkSize M in {off,1..5} and window N in {1,2,20}, every payload length 0..3M+1 (0..16 with chunking off) as a single message and every ordered pair of lengths, over one real connection (complete enumeration). sizes-random: sequences of 1..12 messages with lengths 0, 1, exact multiples and multiples +-1 of M, up to 256 KiB, M up to 64 KiB or off, with and without transport faults. deadlines: three messages, the middle one of 2..7 chunks, a receive or send deadline at a tape-chosen millisecond inside it, the timed-out call retried. Oracle: the Recv results equal, element by element, the messages whose Send returned nil." + SIG_RULE,
+    "rule": "sizes-exhaustive: for each maxChunkSize M in {off,1..5} and window N in {1,2,20}, every payload length 0..3M+1 (0..16 with chunking off) as a single message and every ordered pair of lengths, over one real connection (complete enumeration). sizes-random: sequences of 1..12 messages with lengths 0, 1, exact multiples and multiples +-1 of M, up to 256 KiB, M up to 64 KiB or off, with and without transport faults. deadlines: three messages, the middle one of 2..7 chunks, a receive or send deadline at a tape-chosen millisecond inside it, the timed-out call retried. Oracle: the Recv results equal, element by element, the messages whose Send returned nil. sizes-random: in a third of the runs the sender reuses one scratch buffer (overwritten right after each successful Send), and readers may lag by up to 12 resend timeouts." + SIG_RULE,
     "assumptions": ["a fault-free simulated transport delivers within 2 virtual minutes, so a missing Recv result is a lost message"],
     "components": GBN_COMPONENTS,
-    "expected_probes": ["c14.messages", "c14.deadline-hit-recv"],
+    "expected_probes": ["c14.send-buffer-reused", "c14.messages", "c14.deadline-hit-recv"],
     "level_text": EXPL_TEXT + " The small-size sub-batch is a complete enumeration.",
     "level_note": LEVEL_NOTE_GBN,
 }
@@ -229,10 +229,10 @@ PROPS["C05"] = {
     "pkgs": ["mailbox"],
     "level": "exploration",
     "quick_budget": 80, "thorough_budget": 2400,
-    "rule": "Each run builds the whole stack (Server/Client, ServerConn/ClientConn with their retry loops, GBN with the production timeouts, NoiseGrpcConn at max version 0/1/2, auth payload 0..3000 B) over the stub relay. relay-faults: until a tape-chosen instant (5..64 s) the relay drops/delays messages, fails Recv/Send calls (killing the stream), fails NewCipherBox/RecvStream/SendStream, blocks Send (full mailbox); then it is reliable. Each connection instance writes a self-describing pseudo-random stream (plan up to 120 kB, 1 in 8 runs up to 1 MiB) in writes of 0..65535 bytes and verifies the peer's stream byte by byte; the client closes a completed connection and re-dials. Oracles: stream equality online; at heal + 20 virtual minutes a connection opened after the last fault has completed its transfer (otherwise 'silent stall' if nothing at all happened in the last third, 'no completion' if retries keep failing); every message the relay saw decodes as a GBN packet and no DATA payload contains a 16-byte window of application plaintext or of the auth payload." + SIG_RULE,
+    "rule": "Each run builds the whole stack (Server/Client, ServerConn/ClientConn with their retry loops, GBN with the production timeouts, NoiseGrpcConn at max version 0/1/2, auth payload 0..3000 B) over the stub relay. relay-faults: until a tape-chosen instant (5..64 s) the relay drops/delays messages, fails Recv/Send calls (killing the stream), fails NewCipherBox/RecvStream/SendStream, blocks Send (full mailbox); then it is reliable. Each connection instance writes a self-describing pseudo-random stream (plan up to 120 kB, 1 in 8 runs up to 1 MiB) in writes of 0..65535 bytes and verifies the peer's stream byte by byte; the client closes a completed connection and re-dials. Oracles: stream equality online; at heal + 20 virtual minutes a connection opened after the last fault has completed its transfer (otherwise 'silent stall' if nothing at all happened in the last third, 'no completion' if retries keep failing); every message the relay saw decodes as a GBN packet and no DATA payload contains a 16-byte window of application plaintext or of the auth payload. One run in four uses bounded mailboxes (a Send blocks while the mailbox holds 3 or 16 messages, as the real relay's pipe-backed mailbox pushes back); one run in five has a client application that gives its first connections up in the middle of the transfer (stops reading, closes)." + SIG_RULE,
     "assumptions": ["the relay is a model of aperture's hashmail server; behaviour of the real server that the model lacks is not covered", "'completes' is required of some connection opened after the last fault; earlier connections may fail visibly"],
     "components": STACK_COMPONENTS,
-    "expected_probes": ["c05.transfer-complete-after-heal", "c05.reconnected", "c05.connection-failed-visibly"],
+    "expected_probes": ["stack.abandoned-mid-transfer", "c05.transfer-complete-after-heal", "c05.reconnected", "c05.connection-failed-visibly"],
     "level_text": EXPL_TEXT,
     "level_note": "Trusts the Go runtime, testing/synctest, the instrumenter's rewrite and the relay model; scrypt runs at the repo's rpctest cost parameter.",
 }
